@@ -50,7 +50,9 @@ theorem parseMeta_le (rest : Bytes) (status : Int) (ps : ParseSt) :
       simp only at h
       split
       · simp only [List.length_cons]; omega
-      · simp only [List.length_drop, List.length_cons]; omega
+      · split
+        · simp only [List.length_cons]; omega
+        · simp only [List.length_drop, List.length_cons]; omega
 
 theorem parseChannel_le (byte : Nat) (rest : Bytes) (status : Int) (ps : ParseSt) :
     (parseChannel byte rest status ps).2.1.length ≤ rest.length := by
